@@ -767,6 +767,24 @@ theorem invcdf_inverts (cdf : ℚ → ℚ) (bl bh y x : ℚ) (fuel : ℕ) (hy : 
     subst h
     exact ⟨hx2, x1, h12, hx1⟩
 
+/-- **invcdf_stateless** — the model of a reused `InvCDF(dist)` closure has no state: the answer
+to the k-th query is `invCDF` of that query alone, so two calls with the same p agree whatever was
+asked in between (any two histories `pre`, `pre'`).  (In dist.go all variables of the closure body —
+`x1, y1, xdelta, loX, …` — are declared inside the body; the correspondence check queries ONE real
+closure 1500–3000 times and compares call k with this model and with a fresh closure.) -/
+theorem invcdf_stateless {α : Type} [Stats.Arith α] (cdf : α → α) (bl bh : α) (fuel : ℕ) :
+    (∀ (ps : List α) (k : ℕ) (hk : k < ps.length),
+      (runClosure cdf bl bh fuel ps)[k]? = some (invCDF cdf bl bh fuel ps[k])) ∧
+    (∀ (pre pre' : List α) (p : α),
+      (runClosure cdf bl bh fuel (pre ++ [p])).getLast? = some (invCDF cdf bl bh fuel p) ∧
+      (runClosure cdf bl bh fuel (pre ++ [p])).getLast? =
+        (runClosure cdf bl bh fuel (pre' ++ [p])).getLast?) := by
+  constructor
+  · intro ps k hk
+    simp [runClosure, hk]
+  · intro pre pre' p
+    simp [runClosure]
+
 /-! ### the continued fraction of `betacf` -/
 
 /-- **lentz_is_convergent** — as long as the tiny-value guard `raiseZero` does not fire, the state
